@@ -653,6 +653,76 @@ fn make_sys(tier: Tier) -> Sys {
     }
 }
 
+/// Every scroll region across every change of height: heights 2..=8, every region
+/// (top < bottom), origin mode on / off, on either screen, then a resize to every height
+/// 1..=10 (and one of three widths), then everything that scrolls, addresses or reads the
+/// region - LF / RI / NEL runs from the top and the bottom, SU, SD, IL, DL, origin-mode
+/// addressing with printing, DECSC / DECRC, dump(), text(), and the way back.
+fn regions_across_heights(ctx: &Ctx, rep: &mut Report) {
+    let mut cases: Vec<(usize, u32, u32, bool, bool, usize, usize)> = vec![];
+    for r in 2..=8usize {
+        for t in 1..r as u32 {
+            for b in t + 1..=r as u32 {
+                for origin in [false, true] {
+                    for alt in [false, true] {
+                        for h in 1..=10usize {
+                            for w in [4usize, 2, 7] {
+                                if h != r || w != 4 {
+                                    cases.push((r, t, b, origin, alt, h, w));
+                                }
+                            }
+                        }
+                    }
+                }
+            }
+        }
+    }
+    let battery = "\x1b[H\n\n\n\n\n\n\n\n\n\n\n\x1bM\x1bM\x1bM\x1bM\x1bM\x1bM\x1bM\x1bM\x1bM\x1bM\x1bM\x1b[99;1H\n\n\x1b[2S\x1b[2T\x1b[L\x1b[M\x1b[99L\x1b[99M\x1b[99S\x1b[99T\x1b[?6h\x1b[1;1Hab\x1b[99;99Hcd\x1b[2;1Hx\x1b7\x1b[?6l\x1b8\x1b[99;1H\u{85}\u{85}\x1b[1;1H\x1bM";
+    let bad: Vec<String> = cases
+        .par_iter()
+        .filter_map(|&(r, t, b, origin, alt, h, w)| {
+            let res = guarded(|| {
+                let mut vt = build_vt(4, r, None);
+                let _ = vt.feed_str("1\r\n2\r\n3\r\n4\r\n5\r\n6\r\n7\r\n8\r\n9");
+                if alt {
+                    let _ = vt.feed_str("\x1b[?1049h");
+                }
+                let _ = vt.feed_str(&format!("\x1b[{};{}r{}", t, b, if origin { "\x1b[?6h" } else { "" }));
+                let _ = vt.resize(w, h).scrollback.count();
+                if let Some(e) = super::common::geometry_broken(&vt, (w, h)) {
+                    return Some(format!("after the resize: {}", e));
+                }
+                for piece in [battery, "\x1b[?1049l", battery, "\x1b[?1047h", battery] {
+                    let _ = vt.feed_str(piece).scrollback.count();
+                    let _ = (vt.dump(), vt.text(), vt.cursor());
+                    if let Some(e) = super::common::geometry_broken(&vt, (w, h)) {
+                        return Some(format!("after {}...: {}", esc(&piece.chars().take(12).collect::<String>()), e));
+                    }
+                }
+                let _ = vt.resize(4, r).scrollback.count();
+                let _ = vt.feed_str(battery).scrollback.count();
+                let _ = vt.dump();
+                None
+            });
+            let head = format!("4x{} {} screen, region {}..{}, origin mode {}, resized to {}x{}", r, if alt { "alternate" } else { "primary" }, t, b, if origin { "on" } else { "off" }, w, h);
+            match res {
+                Ok(None) => None,
+                Ok(Some(e)) => Some(format!("{}: {}", head, e)),
+                Err(m) => Some(format!("{}, then scrolling / addressing / reading: panic: {}", head, m)),
+            }
+        })
+        .collect();
+    let n = cases.len() as u64;
+    rep.evaluations += n * 8;
+    rep.transitions += n * 8;
+    rep.parts.push(json!({"part":"regions-across-height-changes","cases":n,"violating":bad.len()}));
+    println!("part regions-across-height-changes: {} (height, region, origin, screen, new size) cases, {} violating", n, bad.len());
+    if let Some(d) = bad.first() {
+        emit_violation(ctx, rep, "C01", json!({"part":"regions-across-height-changes","oracle":"panic","observed":d}));
+        rep.violations += bad.len() as u64 - 1;
+    }
+}
+
 pub fn run(ctx: &Ctx) -> Report {
     let mut rep = Report::new();
     let sys = make_sys(ctx.tier);
@@ -666,6 +736,7 @@ pub fn run(ctx: &Ctx) -> Report {
     run_part(ctx, &mut rep, &runs_part(ctx.tier, &plain));
     sweep(ctx, &mut rep);
     long_call_history(ctx, &mut rep);
+    regions_across_heights(ctx, &mut rep);
     wide_row_dumps(ctx, &mut rep);
     stack_cases(ctx, &mut rep);
     rep.extra.insert("extreme_alphabet_size".into(), json!(sys.extreme.len()));
@@ -711,6 +782,11 @@ pub fn replay(ctx: &Ctx, v: &Value) -> bool {
         let st = std::process::Command::new(&exe).arg("run").arg(v["case"].as_str().unwrap_or("")).status();
         println!("{:?}", st);
         return !st.map(|s| s.success()).unwrap_or(false);
+    }
+    if v["part"] == "regions-across-height-changes" {
+        let mut rep = Report::new();
+        regions_across_heights(ctx, &mut rep);
+        return rep.violations > 0;
     }
     if v["part"] == "wide-row-dumps" {
         let mut rep = Report::new();
